@@ -507,7 +507,10 @@ package tabular
 //@   requires [row-shape] r.inTable == nil ==> (r.isSeparator ==> r.cells == nil) && (r.cells != nil ==> WFrow(r))
 //@   requires [row-attached] r.inTable != nil ==> attached(r)
 //@   requires [cell-ok] chainOK(heap[valueProperty.chain], heap[valueProperty.key], heap[valueProperty.val], c.properties) && cbsLive(c.callbacks) && !c.mustCalc
-//@   assigns when r.cells != nil: r.cells, when r.cells != nil: elemscap(r.cells), r.ErrorContainer, new(ErrorContainer), when r.ErrorContainer != nil: r.ErrorContainer.errors_, when r.ErrorContainer != nil: elemscap(r.ErrorContainer.errors_), when r.inTable != nil: r.inTable.columns, when r.inTable != nil: r.inTable.nColumns, when r.inTable != nil: elemscap(r.inTable.columns), new(column), new(valueProperty), ghost cbErrN, ghost cbErrLog, ghost cbCallN, ghost cbCallSelf, ghost cbCallOwner
+//@   assigns when r.cells != nil: r.cells, when r.cells != nil: elemscap(r.cells), r.ErrorContainer, new(ErrorContainer), when r.ErrorContainer != nil: r.ErrorContainer.errors_, when r.ErrorContainer != nil: elemscap(r.ErrorContainer.errors_), when r.inTable != nil: r.inTable.columns, when r.inTable != nil: r.inTable.nColumns, when r.inTable != nil: elemscap(r.inTable.columns), new(column), new(valueProperty), ghost cbErrN, ghost cbErrLog, ghost cbCallN, ghost cbCallSelf, ghost cbCallOwner, ghost addRowFires
+//@   ensures [row-cell-callbacks-once-for-the-added-cell] old(r.cells) != nil ==> addRowFires == old(addRowFires) + 1 @C13
+//@   call invokePropertyCallbacks#1 before assert [row-cell-callbacks-get-the-live-cell-at-add-time] arg1 == 0 && arg2 == mkiface(type[*Cell], box(&r.cells[len(r.cells) - 1])) @C13
+//@   call invokePropertyCallbacks#1 after ghost addRowFires = addRowFires + 1
 //@   ensures [returns-row] result == r
 //@   ensures [error-container] (old(r.ErrorContainer) != nil ==> r.ErrorContainer == old(r.ErrorContainer)) && (old(r.ErrorContainer) == nil && r.ErrorContainer != nil ==> fresh(r.ErrorContainer) && fresh(r.ErrorContainer.errors_)) && rowOwn(r) @C11
 //@   ensures [errors-array] old(r.ErrorContainer) != nil ==> (r.ErrorContainer.errors_.arr == old(r.ErrorContainer.errors_.arr) && r.ErrorContainer.errors_.off == old(r.ErrorContainer.errors_.off) && r.ErrorContainer.errors_.cap == old(r.ErrorContainer.errors_.cap)) || fresh(r.ErrorContainer.errors_)
@@ -554,6 +557,7 @@ package tabular
 //@ -- add-time firing counters (C13): how often the column-level / table-level cell callback sets were run
 //@ ghost var addColFires Int
 //@ ghost var addTblFires Int
+//@ ghost var addRowFires Int
 
 //@ func (*ATable).AddRow
 //@   tags C02,C11,C13,C09
@@ -561,7 +565,7 @@ package tabular
 //@   requires [row] WFrow(row) && rowProps(row) && cellsOwn(row) && len(row.cells) <= 1099511627774
 //@   requires [row-cells-not-shared] (forall i int :: {t.rows[i]} 0 <= i && i < len(t.rows) ==> t.rows[i].cells.arr != row.cells.arr) && (t.headerRow != nil ==> t.headerRow.cells.arr != row.cells.arr && t.headerRow != row)
 //@   requires [row-errors-separate] row.ErrorContainer != t.ErrorContainer && (row.ErrorContainer != nil ==> len(row.ErrorContainer.errors_) == 0 || row.ErrorContainer.errors_.arr != t.ErrorContainer.errors_.arr)
-//@   assigns t.rows, elemscap(t.rows), row.inTable, row.rowNum, row.ErrorContainer, t.columns, t.nColumns, elemscap(t.columns), new(column), t.ErrorContainer.errors_, elemscap(t.ErrorContainer.errors_), row.properties, elems(row.cells).properties, new(valueProperty), ghost cbErrN, ghost cbErrLog, ghost cbCallN, ghost cbCallSelf, ghost cbCallOwner, ghost addColFires, ghost addTblFires
+//@   assigns t.rows, elemscap(t.rows), row.inTable, row.rowNum, row.ErrorContainer, t.columns, t.nColumns, elemscap(t.columns), new(column), t.ErrorContainer.errors_, elemscap(t.ErrorContainer.errors_), row.properties, elems(row.cells).properties, new(valueProperty), ghost cbErrN, ghost cbErrLog, ghost cbCallN, ghost cbCallSelf, ghost cbCallOwner, ghost addColFires, ghost addTblFires, ghost addRowFires
 //@   ensures [column-and-table-cell-callbacks-once-per-cell] addColFires == old(addColFires) + len(row.cells) && addTblFires == old(addTblFires) + len(row.cells) @C13
 //@   ensures [invariant] WF(t) @C02,C09
 //@   ensures [appended] len(t.rows) == old(len(t.rows)) + 1 && t.rows[len(t.rows)-1] == row && row.rowNum == len(t.rows) && row.inTable == t @C02
@@ -599,7 +603,7 @@ package tabular
 //@ func (*ATable).AppendNewRow
 //@   tags C02,C09
 //@   requires [table] WF(t) && tblProps(t) && colsOwn(t) && len(t.rows) <= 1099511627774
-//@   assigns t.rows, elemscap(t.rows), new(Row), t.columns, t.nColumns, elemscap(t.columns), new(column), t.ErrorContainer.errors_, elemscap(t.ErrorContainer.errors_), new(valueProperty), ghost cbErrN, ghost cbErrLog, ghost cbCallN, ghost cbCallSelf, ghost cbCallOwner, ghost addColFires, ghost addTblFires
+//@   assigns t.rows, elemscap(t.rows), new(Row), t.columns, t.nColumns, elemscap(t.columns), new(column), t.ErrorContainer.errors_, elemscap(t.ErrorContainer.errors_), new(valueProperty), ghost cbErrN, ghost cbErrLog, ghost cbCallN, ghost cbCallSelf, ghost cbCallOwner, ghost addColFires, ghost addTblFires, ghost addRowFires
 //@   ensures [invariant] WF(t) && tblProps(t) && colsOwn(t)
 //@   ensures [appended] len(t.rows) == old(len(t.rows)) + 1 && t.rows[len(t.rows)-1] == result && fresh(result) && len(result.cells) == 0 && !result.isSeparator && result.rowNum == len(t.rows) && result.inTable == t @C02
 //@   ensures [earlier-rows-kept] forall i int :: {t.rows[i]} {old(t.rows[i])} 0 <= i && i < old(len(t.rows)) ==> t.rows[i] == old(t.rows[i]) @C02
@@ -610,7 +614,7 @@ package tabular
 //@   tags C02,C09
 //@   requires [table] WF(t) && tblProps(t) && colsOwn(t) && len(t.rows) <= 1099511627774 && len(items) <= 1099511627774
 //@   requires [nested-cells-ok] forall i int :: {items[i]} 0 <= i && i < len(items) ==> (dyn(items[i]) == type[Cell] ==> cellValOK(items[i].(Cell)))
-//@   assigns t.rows, elemscap(t.rows), new(Row), t.columns, t.nColumns, elemscap(t.columns), new(column), t.ErrorContainer.errors_, elemscap(t.ErrorContainer.errors_), new(valueProperty), new(ErrorContainer), ghost cbErrN, ghost cbErrLog, ghost cbCallN, ghost cbCallSelf, ghost cbCallOwner, ghost addColFires, ghost addTblFires
+//@   assigns t.rows, elemscap(t.rows), new(Row), t.columns, t.nColumns, elemscap(t.columns), new(column), t.ErrorContainer.errors_, elemscap(t.ErrorContainer.errors_), new(valueProperty), new(ErrorContainer), ghost cbErrN, ghost cbErrLog, ghost cbCallN, ghost cbCallSelf, ghost cbCallOwner, ghost addColFires, ghost addTblFires, ghost addRowFires
 //@   ensures [invariant] WF(t) && tblProps(t) && colsOwn(t)
 //@   ensures [appended] len(t.rows) == old(len(t.rows)) + 1 && fresh(t.rows[len(t.rows)-1]) && !t.rows[len(t.rows)-1].isSeparator && len(t.rows[len(t.rows)-1].cells) == len(items) @C02
 //@   ensures [items-in-order] forall k int :: {items[k]} 0 <= k && k < len(items) ==> t.rows[len(t.rows)-1].cells[k].raw === items[k] @C02
@@ -636,7 +640,7 @@ package tabular
 //@   tags C02,C11,C13,C09
 //@   requires [table] WF(t) && tblProps(t) && colsOwn(t) && len(items) <= 1099511627774
 //@   requires [nested-cells-ok] forall i int :: {items[i]} 0 <= i && i < len(items) ==> (dyn(items[i]) == type[Cell] ==> cellValOK(items[i].(Cell)))
-//@   assigns t.headerRow, new(Row), t.columns, t.nColumns, elemscap(t.columns), new(column), t.ErrorContainer.errors_, elemscap(t.ErrorContainer.errors_), new(valueProperty), ghost cbErrN, ghost cbErrLog, ghost cbCallN, ghost cbCallSelf, ghost cbCallOwner, ghost addColFires, ghost addTblFires
+//@   assigns t.headerRow, new(Row), t.columns, t.nColumns, elemscap(t.columns), new(column), t.ErrorContainer.errors_, elemscap(t.ErrorContainer.errors_), new(valueProperty), ghost cbErrN, ghost cbErrLog, ghost cbCallN, ghost cbCallSelf, ghost cbCallOwner, ghost addColFires, ghost addTblFires, ghost addRowFires
 //@   ensures [table-cell-callbacks-once-per-header-cell] addTblFires == old(addTblFires) + len(items) @C13
 //@   ensures [invariant] WF(t) && tblProps(t) && colsOwn(t)
 //@   ensures [header-set] t.headerRow != nil && fresh(t.headerRow) && len(t.headerRow.cells) == len(items) @C02
